@@ -22,7 +22,7 @@ from __future__ import annotations
 import ast
 
 from ..absint import EventAnalysis, run_events
-from ..facts import atoms, call_is, meth_is, strip
+from ..facts import atoms, call_is, meth_is, simplify, strip
 from ..model import AnalysisError, is_self_attr, norm
 from ..paths import CursorLoop
 from ..reference import lua_property_writes, lua_text
@@ -132,6 +132,25 @@ def run(ctx):
     sp = ap.params[0]
     upd = ("attr", ("param", sp), "_updated_properties")
 
+    def says_empty(c, truth):
+        """(c is truth) states that the change set is empty"""
+        c = strip(c)
+        while c[0] == "un" and c[1] == "not":
+            c, truth = strip(c[2]), not truth
+        if call_is(c, "bool") and len(c[2]) == 1:
+            c = strip(c[2][0])
+        if c == upd or (call_is(c, "len") and strip(c[2][0]) == upd):
+            return not truth
+        if c[0] == "cmp":
+            l, r, op = strip(c[2]), strip(c[3]), c[1]
+            if is_const(l) and not is_const(r):
+                l, r, op = r, l, {"<": ">", ">": "<", "<=": ">=", ">=": "<="}.get(op, op)
+            if call_is(l, "len") and strip(l[2][0]) == upd and is_const(r) and isinstance(r[1], int):
+                if not truth:
+                    op = {"<": ">=", ">=": "<", ">": "<=", "<=": ">", "==": "!=", "!=": "=="}.get(op)
+                return (op, r[1]) in (("==", 0), ("<", 1), ("<=", 0))
+        return False
+
     def on_stmt(node, st):
         ev = []
         if isinstance(node, (ast.FunctionDef, ast.AsyncFunctionDef)):
@@ -154,11 +173,8 @@ def run(ctx):
     ctx.ob("C16.b", ap.qual, len(sends) == 1, "apply has exactly one property-write site", func=ap.qual, file=ap.module.rel, construct="_apply_properties call sites",
            fail=f"{len(sends)} property-write sites in apply: a change is sent {len(sends)} times")
     for n in sends:
-        ctx.ob("C16.b", ap.qual, "props_built" in must.at[n] and "cleared" not in may.at[n] or ("props_built" in must.at[n]), "the property write follows the computation of props",
-               func=ap.qual, file=ap.module.rel, node=n, fail="the property write does not follow the computation of props from the change set")
         pcn = aps.ta.env_at[n].pc if n in aps.ta.env_at else ()
-        nonempty = any(not truth and strip(c)[0] == "un" and strip(c)[1] == "not" and any(x == upd for x in subterms(c)) for c, truth in pcn) or \
-            any(truth and any(x == upd for x in subterms(c)) and strip(c)[0] != "un" for c, truth in pcn)
+        nonempty = any(says_empty(c, not truth) for c, truth in pcn)
         ctx.ob("C16.b", ap.qual, nonempty, "the property write is sent only when the change set is non-empty", func=ap.qual, file=ap.module.rel, node=n,
                detail={"pc": [show(c)[:80] + f" is {t}" for c, t in pcn]}, fail="a property write is sent although no property changed")
         t = aps.ta.terms_at.get(n.value.value if isinstance(n.value, ast.Await) else n.value)
@@ -172,22 +188,41 @@ def run(ctx):
             ev_ok = val is not None and val[0] == "call" and val[1][0] == "dyn" and strip(val[1][1]) == ("sub", ("attr", ("param", sp), "_PROPERTY_MAP"), ("bound", gens[0][0])) \
                 and val[2] == (("param", sp),) and elt[1][0] == ("bound", gens[0][0])
             a_ok = inter and ev_ok
+        elif arg is not None and arg[0] == "loopvar":
+            # statement form: props = {}; for k in change set ∩ map keys: props[k] = _PROPERTY_MAP[k](self)
+            lp = next((l for l in aps.loops if getattr(l, "lineno", None) == arg[2] and isinstance(l, ast.For)), None)
+            li = aps.loops.get(lp) if lp is not None else None
+            if li and not li["breaks"] and not li["continues"] and len(li["ends"]) == 1 and li["body_entry"] is not None and li["ends"][0].pc == li["body_entry"].pc \
+                    and strip(li["entry"].env.get(arg[1], ("top",))) in (("dict", ()), ("call", ("ext", "dict"), (), ())):
+                itt = aps.ta.terms_at.get(lp.iter)
+                it = strip(itt)
+                inter = it[0] == "bin" and it[1] == "&" and {strip(it[2]), strip(it[3])} == {upd, ("call", ("meth", ("attr", ("param", sp), "_PROPERTY_MAP"), "keys"), (), ())}
+                e = strip(li["ends"][0].env.get(arg[1], ("top",)))
+                key = ("iter", itt)
+                ev_ok = e[0] == "store" and e[1] == arg and strip(e[2]) == key and strip(e[3])[0] == "call" and strip(e[3])[1][0] == "dyn" \
+                    and strip(strip(e[3])[1][1]) == ("sub", ("attr", ("param", sp), "_PROPERTY_MAP"), key) and strip(e[3])[2] == (("param", sp),)
+                a_ok = inter and ev_ok
         ctx.ob("C16.b", ap.qual, a_ok, "props = {k: _PROPERTY_MAP[k](self) for k in change set ∩ map keys}", func=ap.qual, file=ap.module.rel, node=n,
                detail={"props": show(arg)[:200] if arg else None}, fail=f"props is `{show(arg)[:120] if arg else None}`: not the current value of every changed property")
-    for n, stt in may.at.items():
-        if isinstance(n, ast.Assign) and "props_built" in on_stmt(n, None):
-            ctx.ob("C16.b", ap.qual, "cleared" not in stt, "the change set is not cleared before props is computed", func=ap.qual, file=ap.module.rel, node=n,
-                   fail="the change set is cleared before props is computed: the write is lost")
-    for (st_m, node), (st_y, _n2) in zip(cm.returns, cy.returns):
+    # (that the change set is read before it is cleared is part of the term check above: a cleared set is a different term)
+    # every completion: the properties were sent or the change set was tested empty on the way ("settled" on every path), and
+    # no path sends without clearing afterwards ("unsettled" on no path) - both are insensitive to how the paths are merged
+    def settled_branch(test, truth, st):
+        t = aps.ta.terms_at.get(test)
+        return ["settled"] if t is not None and says_empty(t, truth) else []
+    settled = EventAnalysis(must=True, on_stmt=lambda node, st: ["settled"] if "sent" in on_stmt(node, st) else [], on_branch=settled_branch)
+    c_set = run_events(prog, ap, settled)
+    # (a clear that precedes the send on every path - after props was computed, see the term check - settles it just as well)
+    pending = EventAnalysis(must=False, on_stmt=lambda node, st: ["unsettled"] if "sent" in on_stmt(node, st) and "cleared" not in must.at.get(node, ()) else [],
+                            kill=lambda node, e: e == "unsettled" and "cleared" in on_stmt(node, None))
+    c_pen = run_events(prog, ap, pending)
+    for (st_s, node), (st_p, _n2), (st_y, _n3) in zip(c_set.returns, c_pen.returns, cy.returns):
         if "sent" in st_y:
             ctx.count("completions_after_send")
-            ctx.ob("C16.b", ap.qual, "cleared" in st_m, "every normal completion that sent the properties has cleared the change set", func=ap.qual, file=ap.module.rel,
-                   construct="completion after send", fail="apply can complete after sending without clearing the change set: the same write is repeated by the next apply")
-        else:
-            pcs = [pc for pc, _t, nd, _ in aps.returns if nd is node]
-            empty = any(any(truth and strip(c)[0] == "un" and strip(c)[1] == "not" and any(x == upd for x in subterms(c)) for c, truth in pc) for pc in pcs)
-            ctx.ob("C16.b", ap.qual, empty, "a completion without a property write happens only when the change set is empty", func=ap.qual, file=ap.module.rel,
-                   node=node, fail="apply can return without sending although properties changed")
+        ctx.ob("C16.b", ap.qual, "unsettled" not in st_p, "every normal completion that sent the properties has cleared the change set", func=ap.qual, file=ap.module.rel,
+               construct="completion after send", fail="apply can complete after sending without clearing the change set: the same write is repeated by the next apply")
+        ctx.ob("C16.b", ap.qual, "settled" in st_s, "a completion without a property write happens only when the change set is empty", func=ap.qual, file=ap.module.rel,
+               node=node, fail="apply can return without sending although properties changed")
     apr = ctx.fn(f"{AC}._apply_properties")
     aprs = summarize(prog, apr)
     bz = False
@@ -242,11 +277,13 @@ def run(ctx):
     pr = ctx.fn(f"{CMD}.PropertiesResponse._parse")
     prs = summarize(prog, pr)
     cl = record_loop(ctx, prs, pr, cursor_candidates=("props",))
+    prs = cl.s                # (seen through the view rewrite when the cursor is an integer offset)
     nb = check_cursor(ctx, "C16.d", cl, pr, 4, 3, "property-record")
     ctx.count("back_edges", nb)
     # integer field reads of the record (struct.unpack / unpack_from / int.from_bytes spellings share one canonical term)
     idt = {x for t in prs.ta.terms_at.values() for x in subterms(t) if call_is(x, "int.from_bytes") and x[2] and mentions(x[2][0], cl.c0)}
-    id_ok = bool(idt) and all(strip(t[2][0]) == ("slice", cl.c0, ("const", 0), ("const", 2), None) and t[2][1:] == (("const", "little"),) and not t[3] for t in idt)
+    id_ok = bool(idt) and all(strip(t[2][0]) in (("slice", cl.c0, ("const", 0), ("const", 2), None), ("slice", cl.c0, None, ("const", 2), None))
+                              and t[2][1:] == (("const", "little"),) and not t[3] for t in idt)
     ctx.ob("C16.d", pr.qual, id_ok, "record id = LE16 at the record start", func=pr.qual, file=pr.module.rel, construct="struct.unpack('<H', props[0:2])", fail="the property id is not read little-endian from the first two record bytes")
     dcalls = [t for n, t in prs.ta.terms_at.items() if isinstance(n, ast.Call) and meth_is(t, "decode")]
     d_ok = bool(dcalls) and all(strip(t[2][0]) == ("slice", cl.c0, ("const", 4), None, None) and call_is(strip(t[1][1]), PID) for t in dcalls)
@@ -290,18 +327,18 @@ def run(ctx):
         bm = rst.env.get(f"{us.params[0]}._breeze_mode")
     prec = False
     if bm is not None:
-        def find_gate(t):
-            for x in subterms(t):
-                if x[0] == "ite":
-                    c = strip(x[1])
-                    if c[0] == "cmp" and c[1] == "is not" and c[3] == ("const", None) and meth_is(strip(c[2]), "get_property") and enum_name(strip(c[2])[2][0]) == "BREEZE_CONTROL":
-                        return x
-            return None
-        g = find_gate(bm)
-        if g is not None:
-            then_ids = {enum_name(strip(y)[2][0]) for y in subterms(g[2]) if meth_is(strip(y), "get_property")}
-            else_ids = {enum_name(strip(y)[2][0]) for y in subterms(g[3]) if meth_is(strip(y), "get_property")}
-            prec = then_ids == {"BREEZE_CONTROL"} and {"BREEZE_AWAY", "BREEZELESS"} <= else_ids and "BREEZE_CONTROL" not in else_ids
+        # the value with BREEZE_CONTROL present must not consult the legacy ids; with it absent it consults both
+        ctl = None
+        for x in subterms(bm):
+            if x[0] == "cmp" and x[1] in ("is not", "is") and x[3] == ("const", None) and meth_is(strip(x[2]), "get_property") \
+                    and enum_name(strip(x[2])[2][0]) == "BREEZE_CONTROL":
+                ctl = x[2]
+        if ctl is not None:
+            def ids(t):
+                return {enum_name(strip(y)[2][0]) for y in subterms(t) if meth_is(strip(y), "get_property")}
+            present = simplify(bm, [("cmp", "is not", ctl, ("const", None))])
+            absent = simplify(bm, [("cmp", "is", ctl, ("const", None))])
+            prec = not ({"BREEZE_AWAY", "BREEZELESS"} & ids(present)) and "BREEZE_CONTROL" in ids(present) and {"BREEZE_AWAY", "BREEZELESS"} <= ids(absent)
     ctx.ob("C16.e", us.qual, prec, "BREEZE_CONTROL is consulted first; BREEZE_AWAY / BREEZELESS only when it is absent", func=us.qual, file=us.module.rel,
            construct="breeze precedence", fail="breeze precedence changed: a legacy id can override BREEZE_CONTROL")
     rf = ctx.fn(f"{AC}.refresh")
@@ -316,4 +353,4 @@ def run(ctx):
     ctx.require_min("completions_after_send", 1)
     ctx.require_min("encode_leaves", 3)
     ctx.require_min("decode_leaves", 5)
-    ctx.require_min("back_edges", 3)
+    ctx.require_min("back_edges", 2)
